@@ -7,7 +7,7 @@ Line protocol of C17 (driver_c17).
   z      ::= auto | int          matrix ::= none | sing | code        bg ::= none | transparent | code
   border, outline ::= none | code          colgroup ::= (id bg ((id bg) …))
 Style-level forms (what layout reads; the driver applies `boxBackground` / `boxMatrix` of Model/LaidOut):
-  bg     ::= (S visible colour images)           colour ::= transparent | code
+  bg     ::= (S visibility colour images)        visibility ::= visible | hidden | collapse     colour ::= transparent | code
   matrix ::= (T (bbx bby bw bh) (oxv oxpct oyv oypct) (fn …))      fn as in Drive/Transform
 
 Commands:
@@ -47,7 +47,12 @@ def bgWire? (isPage : Bool) : Sx → Option (Option (Option Nat))
     let colour ← match colour with
       | .atom "transparent" => some none
       | x => x.nat?.map some
-    pure (boxBackground isPage { visible := (← vis.bool?), colour := colour, images := (← images.nat?) })
+    let vis ← match vis with
+      | .atom "visible" => some Visibility.visible
+      | .atom "hidden" => some Visibility.hidden
+      | .atom "collapse" => some Visibility.collapse
+      | _ => none
+    pure (boxBackground isPage { visibility := vis, colour := colour, images := (← images.nat?) })
   | x => bg? x
 
 def optNat? : Sx → Option (Option Nat)
